@@ -258,6 +258,10 @@ def gen_manifest_case(ctx: ShardCtx) -> dict:
                 params['drm'] = 'all'
         if k.startswith(('ping__', 'scte35__')):
             params.setdefault('events', k.split('__')[0])
+        if k == 'failures':
+            # a failure count means something only next to an error injection
+            inj = rng.choice(['verr', 'aerr', 'terr', 'terr'])
+            params.setdefault(inj, {'verr': '503=5', 'aerr': '503=2', 'terr': '503=3'}[inj])
         params[k] = v
     route = 'dash'
     if manifest == 'hand_made.mpd' and mode != 'odvod' and rng.random() < 0.35:
